@@ -568,6 +568,11 @@ func (c *Ctx) RuleStoreThenError(fns []*ssa.Function) {
 				} else if nilOnEdge(errv, b) {
 					continue
 				}
+				// the store happens inside a callee of the module whose own error is what this return hands on (directly, or
+				// behind `if err != nil`): the callee stores only where it returns nil if it passes this rule itself
+				if call, isCall := s.(*ssa.Call); isCall && c.calleeStoresOnlyOnSuccess(call, errv, b, 0) {
+					continue
+				}
 				c.add("violated", "C17.store", fn, s.Pos(), fmt.Sprintf("store through receiver can reach error return at line %d", c.Prog.Fset.Position(ret.Pos()).Line))
 				bad = true
 			}
@@ -582,6 +587,80 @@ func (c *Ctx) RuleStoreThenError(fns []*ssa.Function) {
 			c.add("discharged", "C17.store", fn, fn.Pos(), fmt.Sprintf("%d receiver store site(s), none reaches an error return", len(sites)))
 		}
 	}
+}
+
+// calleeStoresOnlyOnSuccess: call is a call of a module function that writes through the receiver handed to it; the
+// error returned in block b (value errv) is that call's own error result — returned as it is, or b is reached only
+// through the non-nil side of a test of it — and the callee itself never lets a store reach a non-nil error return.
+func (c *Ctx) calleeStoresOnlyOnSuccess(call *ssa.Call, errv ssa.Value, b *ssa.BasicBlock, depth int) bool {
+	callee := c.StaticCallee(&call.Call)
+	if callee == nil || !inRepo(callee) || depth > 3 {
+		return false
+	}
+	res := callee.Signature.Results()
+	if res.Len() == 0 || !isErrorType(res.At(res.Len()-1).Type()) {
+		return false
+	}
+	// the callee's error result in the caller
+	var cerr ssa.Value
+	if res.Len() == 1 {
+		cerr = call
+	} else {
+		for _, r := range *call.Referrers() {
+			if ex, ok := r.(*ssa.Extract); ok && ex.Index == res.Len()-1 {
+				cerr = ex
+			}
+		}
+	}
+	if cerr == nil {
+		return false
+	}
+	handsOn := errv == cerr
+	if !handsOn {
+		for _, r := range *cerr.Referrers() {
+			bo, ok := r.(*ssa.BinOp)
+			if !ok || bo.Op != token.NEQ || !isNilConst(bo.Y) {
+				continue
+			}
+			for _, r2 := range *bo.Referrers() {
+				if iff, ok := r2.(*ssa.If); ok {
+					if t := iff.Block().Succs[0]; len(t.Preds) == 1 && t.Dominates(b) {
+						handsOn = true
+					}
+				}
+			}
+		}
+	}
+	if !handsOn {
+		return false
+	}
+	// the callee under the same rule, for each receiver-derived argument
+	o := origin(callee)
+	for ai := range call.Call.Args {
+		sites := c.writesThroughParam(o, ai, 0)
+		for _, s := range sites {
+			blk := s.Block()
+			cands := []*ssa.BasicBlock{blk}
+			for rb := range reachFrom(blk) {
+				cands = append(cands, rb)
+			}
+			for _, rb := range cands {
+				ret, ok := rb.Instrs[len(rb.Instrs)-1].(*ssa.Return)
+				if !ok {
+					continue
+				}
+				ev := ReturnValues(ret)[len(ret.Results)-1]
+				if isNilConst(ev) || nilOnEdge(ev, rb) {
+					continue
+				}
+				if inner, isCall := s.(*ssa.Call); isCall && c.calleeStoresOnlyOnSuccess(inner, ev, rb, depth+1) {
+					continue
+				}
+				return false
+			}
+		}
+	}
+	return true
 }
 
 // ---------- limit variable discipline (C12.zero, part of C18.L) ----------
@@ -738,6 +817,18 @@ func (c *Ctx) RuleLock(pkg *ssa.Package, varName, muName string) {
 						continue
 					}
 					call, ok := r.(*ssa.Call)
+					// handed to a function value that fn was given (`withRandom(func(r *rand.Rand) { … })`): fine if the call
+					// runs under the lock and every function the module passes in only draws from the generator
+					if ok && !call.Call.IsInvoke() {
+						if fp, isParam := call.Call.Value.(*ssa.Parameter); isParam {
+							if why := c.onlyDrawingCallbacks(fn, fp, call, ld); why != "" {
+								c.add("violated", "C19.lock", fn, r.Pos(), varName+" is handed to a function value: "+why)
+							} else if !c.lockHeldAt(fn, call, mu) {
+								c.add("violated", "C19.lock", fn, call.Pos(), "the generator is handed to a callback while "+muName+" is not held on every path")
+							}
+							continue
+						}
+					}
 					if !ok || len(call.Call.Args) == 0 || call.Call.Args[0] != ld {
 						c.add("violated", "C19.lock", fn, r.Pos(), varName+" escapes (not a method call receiver)")
 						continue
@@ -767,6 +858,77 @@ func (c *Ctx) RuleLock(pkg *ssa.Package, varName, muName string) {
 	if users == 0 {
 		c.add("undecided", "C19.lock", nil, token.NoPos, "no use of "+varName+" found")
 	}
+}
+
+// onlyDrawingCallbacks: fn calls its function-typed parameter fp with the generator gen as an argument; every call
+// of fn in the module passes a function literal (or named function) in which that parameter is used only as the
+// receiver of methods other than Seed. Returns "" if so, otherwise the reason.
+func (c *Ctx) onlyDrawingCallbacks(fn *ssa.Function, fp *ssa.Parameter, call *ssa.Call, gen ssa.Value) string {
+	if fn.Object() != nil && fn.Object().Exported() {
+		return "the function is exported, its callers are not all known"
+	}
+	pi, ai := -1, -1
+	for i, q := range fn.Params {
+		if q == fp {
+			pi = i
+		}
+	}
+	for i, a := range call.Call.Args {
+		if a == gen {
+			ai = i
+		}
+	}
+	if pi < 0 || ai < 0 {
+		return "callback parameter not identified"
+	}
+	sites := 0
+	for g := range c.allFuncs {
+		if !inRepo(g) {
+			continue
+		}
+		for _, b := range g.Blocks {
+			for _, in := range b.Instrs {
+				ci, ok := in.(ssa.CallInstruction)
+				if !ok {
+					continue
+				}
+				cc := ci.Common()
+				if h := c.StaticCallee(cc); h == nil || origin(h) != origin(fn) {
+					continue
+				}
+				sites++
+				if pi >= len(cc.Args) {
+					return "call site without the callback argument"
+				}
+				var cb *ssa.Function
+				switch x := cc.Args[pi].(type) {
+				case *ssa.MakeClosure:
+					cb, _ = x.Fn.(*ssa.Function)
+				case *ssa.Function:
+					cb = x
+				}
+				if cb == nil || len(cb.Blocks) == 0 || ai >= len(cb.Params) {
+					return "a call site passes a function that is not a literal of the module"
+				}
+				for _, r := range *cb.Params[ai].Referrers() {
+					if _, dbg := r.(*ssa.DebugRef); dbg {
+						continue
+					}
+					mc, ok := r.(*ssa.Call)
+					if !ok || len(mc.Call.Args) == 0 || mc.Call.Args[0] != ssa.Value(cb.Params[ai]) {
+						return "the callback at " + c.Prog.Fset.Position(cb.Pos()).String() + " lets the generator escape"
+					}
+					if f := mc.Call.StaticCallee(); f == nil || f.Name() == "Seed" {
+						return "the callback re-seeds the generator or calls it dynamically"
+					}
+				}
+			}
+		}
+	}
+	if sites == 0 {
+		return "no call site found"
+	}
+	return ""
 }
 
 func isMutexCall(in ssa.Instruction, mu *ssa.Global, name string) bool {
